@@ -1391,12 +1391,18 @@ pub async fn register_one(
     iface: usize,
     path: &str,
 ) -> zbus::Result<bool> {
+    let st = new_state(reg, iface, path);
+    register_iface(server, iface, path, st).await
+}
+
+/// Fresh state (default property values) for interface `iface` at `path`, recorded in `reg`.
+pub fn new_state(reg: &mut Registered, iface: usize, path: &str) -> Arc<State> {
     let st = State::new(inst_of_path(path), &reg.log);
     for p in PROPS.iter().filter(|p| p.iface == iface) {
         st.set_prop(p.name, prop_default(p));
     }
     reg.states.insert((path.to_string(), iface), st.clone());
-    register_iface(server, iface, path, st).await
+    st
 }
 
 pub type SigStream = Pin<Box<dyn futures_core::Stream<Item = Result<Vec<Val>, String>> + Send>>;
@@ -1475,6 +1481,14 @@ def gen():
     for j in range(N_IFACES):
         o.append("        %d => server.object_server().remove::<I%d, _>(path).await,\n" % (j, j))
     o.append('        _ => panic!("bank: no such interface"),\n    }\n}\n\n')
+
+    o.append("/// Put the standard layout on a connection builder (`serve_at`), so that the object server is\n/// running before the first message is read.\n")
+    o.append("pub fn serve_layout<'a>(mut b: zbus::connection::Builder<'a>) -> zbus::Result<(zbus::connection::Builder<'a>, Registered)> {\n")
+    o.append("    let mut reg = Registered { log: Log::default(), states: BTreeMap::new() };\n")
+    for j in range(N_IFACES):
+        for p in LAYOUT[j]:
+            o.append("    let st = new_state(&mut reg, %d, %s);\n    b = b.serve_at(%s, I%d { st })?;\n" % (j, rust_str(p), rust_str(p), j))
+    o.append("    Ok((b, reg))\n}\n\n")
 
     # proxies: async + blocking enums
     for kind in ("async", "blocking"):
